@@ -17,6 +17,7 @@ import (
 	"strconv"
 	"strings"
 	"sync"
+	"syscall"
 	"time"
 
 	"verif/pipeline"
@@ -244,6 +245,11 @@ func run(id string, info propInfo, tier string, seed uint64, replay string) int 
 	shards := make([]*props.Shard, b.shards)
 	outputs := make([]string, b.shards)
 	status := make([]int, b.shards)
+	timedOut := make([]bool, b.shards)
+	shardTimeout := 25 * time.Minute
+	if tier == "thorough" {
+		shardTimeout = 4 * time.Hour
+	}
 	var wg sync.WaitGroup
 	for i := 0; i < b.shards; i++ {
 		wg.Add(1)
@@ -258,8 +264,28 @@ func run(id string, info propInfo, tier string, seed uint64, replay string) int 
 			c.Env = append(append([]string{}, baseEnv...), "VERIF_SHARD_OUT="+out, fmt.Sprintf("VERIF_SHARD=%d", i),
 				"VERIF_REPLAY_DIR="+newDir, fmt.Sprintf("VERIF_SEED_EFFECTIVE=%d", shardSeed),
 				fmt.Sprintf("VERIF_INNER=%d", b.inner))
-			o, err := c.CombinedOutput()
-			outputs[i] = string(o)
+			var buf strings.Builder
+			c.Stdout, c.Stderr = &buf, &buf
+			err := c.Start()
+			if err == nil {
+				done := make(chan error, 1)
+				go func() { done <- c.Wait() }()
+				select {
+				case err = <-done:
+				case <-time.After(shardTimeout):
+					// a hang is a fault of the machinery, never a verdict: dump the stacks and give up
+					_ = c.Process.Signal(syscall.SIGQUIT)
+					select {
+					case <-done:
+					case <-time.After(20 * time.Second):
+						_ = c.Process.Kill()
+						<-done
+					}
+					timedOut[i] = true
+					err = fmt.Errorf("timeout")
+				}
+			}
+			outputs[i] = buf.String()
 			if err != nil {
 				status[i] = 1
 			}
@@ -276,6 +302,11 @@ func run(id string, info propInfo, tier string, seed uint64, replay string) int 
 	code := 0
 	var violMsg, violReplay string
 	for i, s := range shards {
+		if timedOut[i] {
+			fmt.Fprintf(os.Stderr, "shard %d timed out (inconclusive); goroutines of the harness:\n%s\n", i, grepLines(outputs[i], "verif/", 25))
+			code = 2
+			continue
+		}
 		if s == nil {
 			fmt.Fprintf(os.Stderr, "shard %d produced no result (worker died?):\n%s\n", i, lastLines(outputs[i], 30))
 			code = 2
@@ -342,6 +373,16 @@ func filterDraws(s string) string {
 			continue
 		}
 		out = append(out, l)
+	}
+	return strings.Join(out, "\n")
+}
+
+func grepLines(s, needle string, n int) string {
+	var out []string
+	for _, l := range strings.Split(s, "\n") {
+		if strings.Contains(l, needle) && len(out) < n {
+			out = append(out, l)
+		}
 	}
 	return strings.Join(out, "\n")
 }
